@@ -59,6 +59,7 @@ class Recorder:
         self.want_log = want_log
         self.sims = []             # SimRec in construction order
         self._by_heap = {}
+        self.classes = set()       # classes of delivery targets (coverage)
         self._tls = threading.local()
         self._orig = {}
         self._lock = threading.Lock()
@@ -122,6 +123,7 @@ class Recorder:
                         sim, r = st[-1]
                         t = self.time.nanoseconds
                         tgt = self.target
+                        rec.classes.add(type(tgt))
                         name = getattr(tgt, "name", None) or type(tgt).__name__
                         et = self.event_type
                         if rec.want_log:
@@ -143,6 +145,7 @@ class Recorder:
                         if r.cur_n > rec.spin_limit:
                             r.spin = {"t": t, "n": r.cur_n, "type": et, "target": type(tgt).__name__,
                                       "module": type(tgt).__module__}
+                            r.spin.update(_innermost_frame(self))
                             raise SpinAbort()
                         tls.emitter = tgt
                 tls.depth = depth + 1
@@ -200,6 +203,10 @@ class Recorder:
         logging.getLogger("happysimulator.core.simulation").removeHandler(self._h)
 
     # -- output ------------------------------------------------------------
+    def class_names(self):
+        return sorted(f"{c.__module__}.{c.__name__}" for c in self.classes
+                      if c.__module__.startswith("happysimulator."))
+
     def digest(self):
         out = []
         for r in self.sims:
@@ -207,6 +214,21 @@ class Recorder:
                         "max_inst": r.max_inst, "max_inst_t": r.max_inst_t, "past": r.past, "tt": r.tt,
                         "spin": r.spin, "max_inst_types": r.max_inst_types if r.max_inst > 1000 else {}})
         return out
+
+
+def _innermost_frame(ev):
+    """For a process continuation: the innermost suspended generator (following `yield from`)."""
+    g = getattr(ev, "process", None) or getattr(ev, "_process", None)
+    seen = 0
+    while g is not None and seen < 50:
+        nxt = getattr(g, "gi_yieldfrom", None)
+        if nxt is None or not hasattr(nxt, "gi_code"):
+            break
+        g, seen = nxt, seen + 1
+    code = getattr(g, "gi_code", None)
+    if code is None:
+        return {"frame": "", "file": ""}
+    return {"frame": getattr(code, "co_qualname", code.co_name), "file": code.co_filename}
 
 
 def _canon(v, depth=0):
